@@ -6,7 +6,7 @@ import fw, execlib
 from fw import Outcome
 from pyspec import Spec
 
-EDITS = ("setv", "clearat", "clear", "clearall", "setf", "setcached", "setref", "recalc", "setallow")
+EDITS = ("setv", "clearat", "clear", "clearall", "setf", "setcached", "setref", "recalc", "setallow", "tracecycle")
 
 
 def apply_def_edit(w, op):
@@ -500,6 +500,7 @@ def run_exec_property(prop, tier, rng, n_quick, n_thorough, gen_kw, weights, nop
                 break
     opk, outk = {}, {}
     broken = set()
+    toodeep = set()
     for ci, (c, r) in enumerate(zip(cases, res)):
         for op, ob in zip(c["ops"], r["obs"]):
             opk[op[0]] = opk.get(op[0], 0) + 1
@@ -507,12 +508,19 @@ def run_exec_property(prop, tier, rng, n_quick, n_thorough, gen_kw, weights, nop
             outk[ok] = outk.get(ok, 0) + 1
             if ob["out"][0] == "err" and ob["out"][1].startswith("other"):
                 broken.add(ci)
+            if len(ob.get("tb") or []) > c["world"]["maxdepth"] + 2 and ci not in toodeep:
+                # the configured recursion limit bounds every executing chain (seeded/C05_r5)
+                toodeep.add(ci)
+                out.p_failures.append({"case": c, "op_index": c["ops"].index(op),
+                                       "detail": "a traceback of %d elements with the recursion limit set to %d: the limit is not enforced"
+                                                 % (len(ob["tb"]), c["world"]["maxdepth"]),
+                                       "script": script_for(c, prop + ": recursion limit")})
     for ci in sorted(broken)[:3]:
         bad = [(k, ob["out"]) for k, ob in enumerate(res[ci]["obs"]) if ob["out"][0] == "err" and ob["out"][1].startswith("other")]
         out.p_failures.append({"case": cases[ci], "op_index": bad[0][0],
                                "detail": "an operation of the modelled vocabulary raised an unexpected exception (the session is not in a consistent, usable state): %r" % (bad[:2],),
                                "script": script_for(cases[ci], prop + ": unexpected exception")})
-    good = [i for i in range(len(cases)) if i not in broken]
+    good = [i for i in range(len(cases)) if i not in broken and i not in toodeep]
     # (P)
     for i in good:
         for orc in oracles:
